@@ -172,7 +172,9 @@ Proof. destruct t; simpl; [apply bv_var_map|reflexivity..]. Qed.
 Lemma bv_item_map f it : bv_item (map_item f it) = map f (bv_item it).
 Proof.
   induction it using item_ind'; simpl; try reflexivity.
-  - rewrite flat_map_map, map_flat_map. apply flat_map_ext_in; intros; apply bv_term_map.
+  - rewrite map_app. f_equal.
+    + rewrite flat_map_map, map_flat_map. apply flat_map_ext_in; intros; apply bv_term_map.
+    + rewrite flat_map_map, map_flat_map. apply flat_map_ext_in; intros c0 _. destruct c0; simpl; [reflexivity|apply bv_var_map].
   - destruct c; simpl; [reflexivity|apply bv_var_map].
   - apply bv_var_map.
   - rewrite flat_map_map, map_flat_map. apply flat_map_ext_in; intros alt Ha.
@@ -210,23 +212,17 @@ Qed.
 Lemma invs_items_map f l : invs_items (map_items f l) = invs_items l.
 Proof. unfold invs_items, map_items. rewrite flat_map_map. apply flat_map_ext_in; intros; apply invs_item_map. Qed.
 
-Lemma no_attached_map f it : no_attached (map_item f it) = no_attached it.
-Proof.
-  induction it using item_ind'; simpl; try reflexivity.
-  - destruct c; reflexivity.
-  - rewrite forallb_map. apply forallb_ext_in; intros alt Ha.
-    rewrite forallb_map. apply forallb_ext_in; intros i Hi. exact (FF_in _ _ H alt Ha i Hi).
-Qed.
-Lemma no_attached_items_map f l : forallb no_attached (map_items f l) = forallb no_attached l.
-Proof. unfold map_items. rewrite forallb_map. apply forallb_ext_in; intros; apply no_attached_map. Qed.
 
 Lemma bv_var_incl v : incl (bv_var v) (ids_var v).
 Proof. destruct v; simpl; auto with datatypes. Qed.
 Lemma bv_item_incl it : incl (bv_item it) (ids_item it).
 Proof.
   induction it using item_ind'; simpl; try (intros x []).
-  - intros x Hx. apply in_or_app. left. apply in_flat_map in Hx as [t [Ht Hx]]. apply in_flat_map. exists t; split; auto.
-    destruct t; simpl in *; try contradiction. destruct v; simpl in *; auto.
+  - intros x Hx. apply in_app_or in Hx as [Hx|Hx]; apply in_or_app; [left|right].
+    + apply in_flat_map in Hx as [t [Ht Hx]]. apply in_flat_map. exists t; split; auto.
+      destruct t; simpl in *; try contradiction. destruct v; simpl in *; auto.
+    + apply in_flat_map in Hx as [c0 [Hc Hx]]. apply in_flat_map. exists c0; split; auto.
+      destruct c0; simpl in *; [contradiction|]. apply in_or_app; left. apply bv_var_incl; auto.
   - destruct c; simpl; [intros x []|]. intros i Hi. apply in_or_app; left. apply bv_var_incl; auto.
   - intros i Hi. apply in_or_app; left. apply bv_var_incl; auto.
   - intros x Hx. apply in_flat_map in Hx as [alt [Ha Hx]]. apply in_flat_map in Hx as [i [Hi Hx]].
@@ -275,23 +271,17 @@ Qed.
 Lemma invs_items_subst s l : invs_items (subst_items s l) = invs_items l.
 Proof. unfold invs_items, subst_items. rewrite flat_map_map. apply flat_map_ext_in; intros; apply invs_item_subst. Qed.
 
-Lemma no_attached_subst s it : no_attached (subst_item s it) = no_attached it.
-Proof.
-  induction it using item_ind'; simpl; try reflexivity.
-  - destruct c; reflexivity.
-  - rewrite forallb_map. apply forallb_ext_in; intros alt Ha.
-    rewrite forallb_map. apply forallb_ext_in; intros i Hi. exact (FF_in _ _ H alt Ha i Hi).
-Qed.
-Lemma no_attached_items_subst s l : forallb no_attached (subst_items s l) = forallb no_attached l.
-Proof. unfold subst_items. rewrite forallb_map. apply forallb_ext_in; intros; apply no_attached_subst. Qed.
 
 Lemma bv_var_subst s v : incl (bv_var v) (bv_var (subst_var s v)).
 Proof. destruct v; simpl; [apply incl_refl|intros x []]. Qed.
 Lemma bv_item_subst s it : incl (bv_item it) (bv_item (subst_item s it)).
 Proof.
   induction it using item_ind'; simpl; try (intros x []).
-  - intros x Hx. apply in_flat_map in Hx as [t [Ht Hx]]. apply in_flat_map. exists (subst_term s t). split; [apply in_map; auto|].
-    destruct t; simpl in *; try contradiction. destruct v; simpl in *; [auto|contradiction].
+  - intros x Hx. apply in_app_or in Hx as [Hx|Hx]; apply in_or_app; [left|right].
+    + apply in_flat_map in Hx as [t [Ht Hx]]. apply in_flat_map. exists (subst_term s t). split; [apply in_map; auto|].
+      destruct t; simpl in *; try contradiction. destruct v; simpl in *; [auto|contradiction].
+    + apply in_flat_map in Hx as [c0 [Hc Hx]]. apply in_flat_map. exists (subst_cnd s c0). split; [apply in_map; auto|].
+      destruct c0; simpl in *; [contradiction|]. apply bv_var_subst; auto.
   - destruct c; simpl; [intros x []|apply bv_var_subst].
   - apply bv_var_subst.
   - intros x Hx. apply in_flat_map in Hx as [alt [Ha Hx]]. apply in_flat_map in Hx as [i [Hi Hx]].
